@@ -504,6 +504,70 @@ def family_casefold(rng, dbdir, opts, nops):
 FAMILIES = [('random', family_random), ('snapshot-chain', family_snapshot_chain), ('tombstones', family_tombstones), ('disjoint', family_disjoint), ('casefold', family_casefold), ('l0chain', family_l0chain), ('splitkey', family_splitkey), ('deep', family_deep)]
 
 
+def family_seekcompact(rng, dbdir, opts, nops):
+    """seek-triggered compactions (file_to_compact): a few overlapping level-0 tables written by recovery (so that they stay
+    in level 0), then >= allowed_seeks (100 for small tables) lookups of a key that lies inside the range of the newest table
+    but is found only in an older one -- the newest table is charged a seek each time and becomes the compaction victim at
+    level 0, where the compaction has to take every overlapping level-0 file with it.  Then the same one level down: a
+    level-1 file whose range covers a key that only the level-2 file below it holds."""
+    h = Hist(rng, dbdir, opts, rng.choice([16, 24]))
+    h.open()
+    ks = sorted(h.keys)
+    n = len(ks)
+    for rnd in range(max(2, nops // 25)):
+        deep = rnd % 2 == 1
+        if deep:
+            # level 2: all keys; level 1: only the two edge keys (range covers everything in between)
+            for k in ks:
+                h.emit('put %s %s' % (proto.arg(h.spell(k)), h.val(True)))
+            h.emit('flushmem')
+            h.emit('compact 0 * *')
+            h.emit('compact 1 * *')
+            h.emit('put %s %s' % (proto.arg(h.spell(ks[0])), h.val(True)))
+            h.emit('put %s %s' % (proto.arg(h.spell(ks[-1])), h.val(True)))
+            h.emit('flushmem')
+            h.emit('compact 0 * *')
+        else:
+            h.emit('compact 0 * *')      # fewer than four level-0 files: no size-triggered compaction competes
+            ntab = rng.range(2, 3)
+            for t in range(ntab):
+                if t == 0:
+                    for k in ks:
+                        if rng.chance(5, 6):
+                            h.emit('put %s %s' % (proto.arg(h.spell(k)), h.val(True)))
+                else:
+                    # newer table: the edges (so its range covers the key space) and a few overwrites / deletions inside
+                    h.emit('put %s %s' % (proto.arg(h.spell(ks[0])), h.val(True)))
+                    h.emit('put %s %s' % (proto.arg(h.spell(ks[-1])), h.val(True)))
+                    for _ in range(rng.range(1, 4)):
+                        k = ks[rng.range(1, n - 2)]
+                        if k == ks[n // 2]:
+                            continue
+                        if rng.chance(1, 3):
+                            h.emit('del %s' % proto.arg(h.spell(k)))
+                        else:
+                            h.emit('put %s %s' % (proto.arg(h.spell(k)), h.val(True)))
+                h.reopen()                # recovery writes the log as a level-0 table
+        if rng.chance(1, 3):
+            h.snap()
+        h.emit('ver')
+        probe = ks[n // 2]
+        for i in range(rng.range(105, 130)):
+            h.emit('get %s' % proto.arg(h.spell(probe)))
+        h.emit('ver')
+        h.read_all()
+        if rng.chance(1, 3):
+            h.iter_walk(10)
+        h.write_some(rng.range(1, 4), small=True)
+    h.read_all()
+    h.emit('ls')
+    h.emit('close')
+    return h.lines
+
+
+FAMILIES.append(('seekcompact', family_seekcompact))
+
+
 def gen_history(rng, dbdir, nops):
     opts = rng.choice(opt_sets(rng, None))
     name, fam = rng.choice([f for f in FAMILIES if f[0] not in ('repair', 'lifecycle', 'corrupt', 'manifest-growth')])
